@@ -126,16 +126,26 @@ TxAdmissible(p, txs, revs, i) ==
 
 Admissible(p, txs, revs) == \A i \in DOMAIN txs : TxAdmissible(p, txs, revs, i)
 
-(* ---- model of the code: BlockReader.Read ---------------------------------- *)
-\* returns << sequence of [b, obs], new position >>
+(* ---- BlockReader.Read ------------------------------------------------------ *)
+\* returns << sequence of [b, obs], new position >>.  Walk back flagging obsolete until on the best chain, then one
+\* block forward.  If the walk back ends ON the best block (the position descended from it) there is nothing to step
+\* forward to: the obsolete blocks are the whole answer.  (chain/block_reader.go asks for block best+1 there and
+\* fails; that case needs a child of best that is not best, which the node's fork choice never produces but
+\* Repository.AddBlock permits.)
 RECURSIVE ReadWalk(_, _)
 ReadWalk(pos, bst) ==
   IF Num(pos) > Num(bst) \/ ~HasBlock(bst, pos)
   THEN LET r == ReadWalk(blocks[pos].parent, bst)
        IN << <<[b |-> pos, obs |-> TRUE]>> \o r[1], r[2] >>
+  ELSE IF pos = bst THEN << <<>>, pos >>
   ELSE LET nx == GetBlockID(bst, Num(pos) + 1)
        IN << <<[b |-> nx, obs |-> FALSE]>>, nx >>
 ReadStep(pos, bst) == IF pos = bst THEN << <<>>, pos >> ELSE ReadWalk(pos, bst)
+
+\* everything a connected subscription streams until it is quiescent (api/subscriptions pipe: Read until nothing more)
+RECURSIVE DrainOut(_, _)
+DrainOut(pos, bst) == IF pos = bst THEN <<>>
+                      ELSE LET r == ReadStep(pos, bst) IN r[1] \o DrainOut(r[2], bst)
 
 \* the subscriber: drops blocks flagged obsolete, appends the others
 RECURSIVE Apply(_, _)
@@ -187,6 +197,12 @@ StartReader(r, p) ==
   /\ rd' = rd @@ (r :> [pos |-> p, held |-> ChainSeq(p)])
   /\ UNCHANGED <<blocks, idx, txi, filter, heads, best, txinfo, anc>>
 
+\* a connected subscription reads until quiescent; the subscriber applies everything
+Drain(r) ==
+  /\ r \in DOMAIN rd
+  /\ rd' = [rd EXCEPT ![r] = [pos |-> best, held |-> Apply(rd[r].held, DrainOut(rd[r].pos, best))]]
+  /\ UNCHANGED <<blocks, idx, txi, filter, heads, best, txinfo, anc>>
+
 \* one Read() and the subscriber applying its result
 Read(r) ==
   /\ r \in DOMAIN rd
@@ -220,17 +236,24 @@ VersionsUnique == Cardinality({Ver(b) : b \in Known}) = Cardinality(Known)
 \* exactly the canonical chain
 ReaderTracks == \A r \in DOMAIN rd : rd[r].held = ChainSeq(rd[r].pos)
 ReaderConverges == \A r \in DOMAIN rd : ReadStep(rd[r].pos, best)[1] = <<>> => rd[r].held = ChainSeq(best)
-\* every non-empty Read brings the reader onto the canonical chain, exactly one block past the fork point
+\* every non-empty Read brings the reader onto the canonical chain: all blocks above the fork point are flagged
+\* obsolete (highest first), then exactly one block past the fork point follows - unless the fork point is best itself
 ReadLands ==
   \A r \in DOMAIN rd :
-     LET res == ReadStep(rd[r].pos, best)
-         fork == CHOOSE n \in 0..Num(rd[r].pos) :
-                    /\ AncAt(rd[r].pos, n) = AncAt(best, n)
-                    /\ \A m \in (n + 1)..Num(rd[r].pos) : AncAt(rd[r].pos, m) # AncAt(best, m)
-     IN rd[r].pos # best =>
-          /\ res[2] \in Known /\ res[2] = AncAt(best, fork + 1)
-          /\ Len(res[1]) = Num(rd[r].pos) - fork + 1
-          /\ \A i \in 1..(Len(res[1]) - 1) : res[1][i] = [b |-> AncAt(rd[r].pos, Num(rd[r].pos) - i + 1), obs |-> TRUE]
+     LET p == rd[r].pos
+         res == ReadStep(p, best)
+         fork == CHOOSE n \in 0..Num(p) :
+                    /\ AncAt(p, n) = AncAt(best, n)
+                    /\ \A m \in (n + 1)..Num(p) : AncAt(p, m) # AncAt(best, m)
+         nobs == Num(p) - fork
+     IN p # best =>
+          /\ res[2] \in Known
+          /\ res[2] = (IF fork = Num(best) THEN best ELSE AncAt(best, fork + 1))
+          /\ Len(res[1]) = nobs + (IF fork = Num(best) THEN 0 ELSE 1)
+          /\ \A i \in 1..nobs : res[1][i] = [b |-> AncAt(p, Num(p) - i + 1), obs |-> TRUE]
+          /\ (fork # Num(best) => res[1][nobs + 1] = [b |-> res[2], obs |-> FALSE])
+\* a drained subscription holds the canonical chain
+DrainConverges == \A r \in DOMAIN rd : Apply(rd[r].held, DrainOut(rd[r].pos, best)) = ChainSeq(best)
 
 (* C09: on chains all of whose blocks passed admission *)
 CleanHeads == {h \in CheckHeads : blocks[h].clean}
